@@ -278,6 +278,7 @@ qb_log_blackbox_print_from_file(const char *bb_filename)
 		struct timespec timestamp;
 		time_t time_sec;
 		uint32_t msg_len;
+		size_t ts_size;
 		struct tm *tm;
 		char message[QB_LOG_MAX_LEN];
 
@@ -328,6 +329,18 @@ qb_log_blackbox_print_from_file(const char *bb_filename)
 		function = ptr;
 		ptr += fn_size;
 
+		/* the name must end inside its field, and the timestamp and
+		 * the message length must lie inside the entry that was read */
+		ts_size = have_timespecs ? sizeof(struct timespec) : sizeof(time_t);
+		if (function[fn_size - 1] != '\0' ||
+		    (ptr - chunk) + ts_size + sizeof(uint32_t) > bytes_read) {
+#ifndef S_SPLINT_S
+			printf("ERROR Corrupt file: entry too short for its function name %" PRIu32 "\n", fn_size);
+			err = -EIO;
+#endif /* S_SPLINT_S */
+			goto cleanup;
+		}
+
 		/* timestamp size & content */
 		if (have_timespecs) {
 			memcpy(&timestamp, ptr, sizeof(struct timespec));
@@ -351,7 +364,8 @@ qb_log_blackbox_print_from_file(const char *bb_filename)
 		}
 		/* message length */
 		memcpy(&msg_len, ptr, sizeof(uint32_t));
-		if (msg_len > QB_LOG_MAX_LEN || msg_len <= 0) {
+		if (msg_len > QB_LOG_MAX_LEN || msg_len <= 0 ||
+		    (ptr - chunk) + sizeof(uint32_t) + msg_len > bytes_read) {
 #ifndef S_SPLINT_S
 			printf("ERROR Corrupt file: msg_len out of bounds %" PRIu32 "\n", msg_len);
 			err = -EIO;
@@ -362,9 +376,9 @@ qb_log_blackbox_print_from_file(const char *bb_filename)
 		ptr += sizeof(uint32_t);
 
 		/* message content */
-		len = qb_vsnprintf_deserialize(message, QB_LOG_MAX_LEN, ptr);
+		len = qb_vsnprintf_deserialize_n(message, QB_LOG_MAX_LEN, ptr, msg_len);
 		assert(len > 0);
-		message[len] = '\0';
+		/* len counts the terminating NUL: message[len - 1] is that NUL */
 		len--;
 		while (len > 0 && (message[len] == '\n' || message[len] == '\0')) {
 			message[len] = '\0';
